@@ -40,6 +40,11 @@ CHECKS = {
   technique='TLA+ spec TimeStep.tla (documented minimum as exact rationals) with the decision structure of compute_time_step as a state machine model-checked by TLC (TimeStepMC.tla); every case of the TLC universe and random cases replayed into the real Integrator.compute_time_step / Solver._compute_timestep and decided by TLC (TraceTimeStep.tla)',
   text='The documented result is specified in exact rational arithmetic (inputs chosen so the square roots are exact). TLC explores the complete case analysis of a small universe (arrays empty or not, each criterion present or not, zero or positive values, h below/above 1, fixed_h, ghosts) and prints every case; each one becomes one call of the real code following the solver protocol, and TLC compares the recorded value with the specification.',
   note='Both readings the statement leaves open (hmin / maxima over real particles or over all particles) are accepted. Floats are compared to 1 part in 2^20.'),
+ 'C17': dict(
+  cat='model_checking', design_ref='DESIGN.md section 5 (C17), 4.3',
+  technique='TLA+ spec NNPS.tla (IsPermutation, SameBag of whole particle records, RealsFirst, query contract after the next update); recorded re-orderings of the real NNPS classes decided by TLC (TraceNNPS.tla)',
+  text='For every class implementing get_spatially_ordered_indices, scenarios (small exhaustive placements, random clouds, periodic domains that create ghost-tagged rows, strided and typed extra properties) are replayed: the returned index list, the arrays immediately after spatially_order_particles and the neighbour lists after the following update are recorded and TLC decides permutation-ness, preservation of the multiset of whole particle records, Local rows first with the right num_real_particles, and the neighbour contract again.',
+  note='Shares NNPS.tla and the driver with C01; failures of the plain neighbour query are attributed to C01. Design run: NNPS.hist.cfg (snapshot semantics).'),
 }
 
 NOT_APPLICABLE = {
